@@ -245,7 +245,9 @@ func (pc *propCheck) replayTranslator(o *Obligation, con *Contract) replayResult
 				tagged = true
 			}
 		}
-		if tagged && len(w.Obls) > 0 {
+		if tagged && len(w.Obls) > 0 && o.Kind != "scenario" {
+			// (the scenario pool of a stale or undecided contract runs every witness of the function:
+			// no obligation is left to select by)
 			tagged = false
 			for _, sub := range w.Obls {
 				if strings.Contains(o.Name, sub) {
